@@ -5,6 +5,7 @@ package meta
 // C07 (a): histories with faults on a real three-node raft meta cluster (bed M).
 
 import (
+	"runtime"
 	"fmt"
 	"net"
 	"net/http"
@@ -153,7 +154,26 @@ func (c *vCluster) startAll() error {
 		wg.Add(1)
 		go func(i int, n *vMNode) { defer wg.Done(); errs[i] = n.start() }(i, n)
 	}
-	wg.Wait()
+	// every node of the cluster is being started, so a leader can be elected and Service.Open returns (normally
+	// within a second); a start that has not returned after two minutes is a node that cannot come back
+	if !verifkit.Watch(2*time.Minute, wg.Wait) {
+		buf := make([]byte, 1<<20)
+		buf = buf[:runtime.Stack(buf, true)]
+		stacks := string(buf)
+		if i := strings.Index(stacks, "(*store).open"); i >= 0 {
+			lo, hi := i-1500, i+2500
+			if lo < 0 {
+				lo = 0
+			}
+			if hi > len(stacks) {
+				hi = len(stacks)
+			}
+			stacks = stacks[lo:hi]
+		} else if len(stacks) > 4000 {
+			stacks = stacks[:4000]
+		}
+		return fmt.Errorf("%s starting every meta node of the cluster did not finish within 2 minutes (Service.Open blocked); goroutines around store.open:\n%s", vErrRestartHangs, stacks)
+	}
 	for _, e := range errs {
 		if e != nil {
 			return e
@@ -161,6 +181,8 @@ func (c *vCluster) startAll() error {
 	}
 	return nil
 }
+
+const vErrRestartHangs = "RESTART-HANGS"
 
 func (c *vCluster) upCount() int {
 	n := 0
@@ -323,6 +345,9 @@ func TestVerifC07RaftHistories(t *testing.T) {
 			case "restartAll":
 				cl.stopAll()
 				if err := cl.startAll(); err != nil {
+					if strings.Contains(err.Error(), vErrRestartHangs) {
+						rt.Fatalf("%s after history %v: %v", verifkit.Sig("meta-node-restart-hangs"), actions, err)
+					}
 					rt.Fatalf("%s meta nodes do not restart: %v", verifkit.Sig("meta-node-restart-fails"), err)
 				}
 				disrupted = true
@@ -343,6 +368,9 @@ func TestVerifC07RaftHistories(t *testing.T) {
 		// quiescence: full restart, wait for convergence
 		cl.stopAll()
 		if err := cl.startAll(); err != nil {
+			if strings.Contains(err.Error(), vErrRestartHangs) {
+				rt.Fatalf("%s after history %v: %v", verifkit.Sig("meta-node-restart-hangs"), actions, err)
+			}
 			rt.Fatalf("%s meta nodes do not restart: %v", verifkit.Sig("meta-node-restart-fails"), err)
 		}
 		deadline := time.Now().Add(60 * time.Second)
